@@ -16,6 +16,7 @@ import random
 from .. import ashref as R
 from .. import vloop
 from ..runner import Acc
+from .. import logmode
 
 PROPERTY = "C05"
 LEVEL = "fault_enumeration"
@@ -586,7 +587,7 @@ def shards(tier, seed):
 def run_shard(desc) -> Acc:
     import logging
 
-    logging.disable(logging.CRITICAL)
+    logmode.apply(desc)
     acc = Acc()
     from ..contracts import install_ash_contracts
 
